@@ -87,7 +87,7 @@ r('analyze_block', 'index', 'block index below basic_blocks.len(); LocalRef of t
 r('analyze_block', 'macro:panic', 'a pointer-typed receiver operand is NamedObject or Local: null.x is rejected by to_concrete_type in the builder')
 r('analyze_block', 'call', 'insert position `line` <= statements.len() (enumerate index of an existing statement, shifted by earlier inserts)')
 # typedexpr
-r('walk_stmt', 'call', 'default position is the index of the default clause among case/default children, hence <= cases.len()')
+r('walk_stmt', 'call', 'Vec::insert(d.position, ..): the default position counts the case/default clauses before it (C01 R1.11, re-checked here), hence <= cases.len() = body_statements.len()', {'kind': 'shared', 'check': 'C01', 'rule': 'R1.11', 'keys': ['default-position-counts-clauses']})
 r('walk_expr', 'index', 'i >= 1 from enumerate().skip(1) over ns, so i-1 and i index ns')
 # typemap
 r('TypeSpace::get_type_scoped', 'unwrap', 'str::split yields at least one item')
